@@ -124,7 +124,8 @@ func QuoteAlt(s string, c Coin) string {
 			if c.Intn(3) == 0 {
 				u4(ru)
 			} else {
-				sb.WriteString(strings.Trim(Quote(string(ru)), `"`))
+				q := Quote(string(ru))
+				sb.WriteString(q[1 : len(q)-1])
 			}
 		case ru == '/' && c.Intn(2) == 0:
 			sb.WriteString(`\/`)
